@@ -220,7 +220,7 @@ def run(tier, report):
     report.exhaustive = True
     report.assumptions += [
         "spellings the documentation itself makes ambiguous are not asked for: a single digit is a decimal code, white space "
-        "cannot be given literally; the thousands separator 'space' mentioned in the prose is not tried",
+        "cannot be given literally as item delimiter",
         "the concrete texts (case variants, encoding names, malformed values) are the harness's; the specification supplies "
         "applicability, denotation, defaults and consistency",
     ]
